@@ -768,6 +768,76 @@ Proof.
   assert (b = c) by (eapply NoDup_concat_unique; eauto). subst. congruence.
 Qed.
 
+(** ** the split of a family in terms of the comparison alone *)
+Lemma types_equal_res_refl r a : types_equal_res r a a = Ok true.
+Proof. unfold types_equal_res. cbn [teq]. rewrite N.eqb_refl. reflexivity. Qed.
+
+Lemma SS_lt_hd_least (g : list N) i : StronglySorted N.lt g -> In i g -> (group_first g <= i)%N.
+Proof.
+  intros H Hi. destruct g as [|x g]; [destruct Hi|]. cbn [group_first hd].
+  destruct Hi as [<-|Hi]; [lia|]. inversion H as [|? ? _ Hall]; subst.
+  rewrite Forall_forall in Hall. specialize (Hall i Hi). lia.
+Qed.
+
+(** the member every group is compared with first -- the first member of the first group -- is
+    the least position carrying the path *)
+Theorem dedup_first_least r m p gs i :
+  build_groups r = Ok m -> In (p, gs) m -> entry_at r i p ->
+  (group_first (hd [] gs) <= i)%N.
+Proof.
+  intros H Hin Hi. destruct (dedup_groups _ _ H) as (_ & D2 & _ & D4 & D5 & _ & _ & D8 & _).
+  destruct (D2 _ _ Hin) as [Hne Hall]. destruct (D8 _ _ Hin) as [S1 S2].
+  assert (Hns : namespace p <> []).
+  { destruct gs as [|g0 gs0]; [congruence|]. inversion Hall as [|? ? Hg0 _]; subst.
+    destruct g0 as [|j g0]; [congruence|].
+    assert (Hm : In j (all_members m)).
+    { apply in_all_members. exists p, ((j :: g0) :: gs0), (j :: g0).
+      split; [exact Hin|]. split; left; reflexivity. }
+    apply D4 in Hm as (q & Hq & Hn).
+    assert (Hj : entry_at r j p) by (apply (D5 p ((j :: g0) :: gs0) (j :: g0) j Hin); left; reflexivity).
+    rewrite (entry_at_fun _ _ _ _ Hj Hq). exact Hn. }
+  destruct (dedup_member _ _ _ _ H Hi Hns) as (gs' & g & Hin' & Hg & Hig).
+  rewrite (groups_functional _ _ _ _ _ H Hin' Hin) in Hg. clear gs' Hin'.
+  rewrite Forall_forall in S1. pose proof (SS_lt_hd_least g i (S1 g Hg) Hig) as L1.
+  destruct gs as [|g0 gs0]; [destruct Hg|]. cbn [hd].
+  destruct Hg as [->|Hg]; [exact L1|].
+  cbn [map] in S2. inversion S2 as [|? ? _ Hall2]; subst. rewrite Forall_forall in Hall2.
+  specialize (Hall2 (group_first g) (in_map group_first gs0 g Hg)). lia.
+Qed.
+
+(** a family is split into two or more groups iff some position carrying the path is judged
+    different from the first one *)
+Theorem dedup_split_iff r m p gs :
+  build_groups r = Ok m -> In (p, gs) m ->
+  ((2 <= List.length gs)%nat <->
+   exists j, entry_at r j p /\ types_equal_res r j (group_first (hd [] gs)) = Ok false).
+Proof.
+  intros H Hin. destruct (dedup_groups _ _ H) as (_ & D2 & _ & D4 & D5 & D6 & D7 & _).
+  destruct (D2 _ _ Hin) as [Hne Hall]. split.
+  - intros Hl. destruct gs as [|g1 [|g2 gs0]]; cbn [List.length] in Hl; try lia. cbn [hd].
+    inversion Hall as [|? ? _ Hall']; subst. inversion Hall' as [|? ? Hg2 _]; subst.
+    exists (group_first g2). split.
+    + apply (D5 p (g1 :: g2 :: gs0) g2); [exact Hin|right; left; reflexivity|apply group_first_in; exact Hg2].
+    + apply (D7 p (g1 :: g2 :: gs0) [g1] g2 gs0 g1); [exact Hin|reflexivity|left; reflexivity|].
+      apply group_first_in; exact Hg2.
+  - intros (j & Hj & Hf).
+    destruct (Nat.lt_ge_cases (List.length gs) 2) as [Hlt|Hge]; [exfalso|exact Hge].
+    destruct gs as [|g1 [|g2 gs0]]; cbn [List.length] in Hlt; try lia; [congruence|]. cbn [hd] in Hf.
+    assert (Hns : namespace p <> []).
+    { inversion Hall as [|? ? Hg1 _]; subst. destruct g1 as [|i g1]; [congruence|].
+      assert (Hm : In i (all_members m)).
+      { apply in_all_members. exists p, [i :: g1], (i :: g1). split; [exact Hin|]. split; left; reflexivity. }
+      apply D4 in Hm as (q & Hq & Hn).
+      assert (Hi : entry_at r i p) by (apply (D5 p [i :: g1] (i :: g1) i Hin); left; reflexivity).
+      rewrite (entry_at_fun _ _ _ _ Hi Hq). exact Hn. }
+    destruct (dedup_member _ _ _ _ H Hj Hns) as (gs' & g & Hin' & Hg & Hjg).
+    rewrite (groups_functional _ _ _ _ _ H Hin' Hin) in Hg. destruct Hg as [<-|[]].
+    destruct g1 as [|f g1]; [destruct Hjg|]. cbn [group_first hd] in Hf. destruct Hjg as [<-|Hjg].
+    + rewrite types_equal_res_refl in Hf. discriminate.
+    + pose proof (D6 p [f :: g1] (f :: g1) j Hin (or_introl eq_refl) Hjg) as Ht.
+      cbn [group_first hd] in Ht. rewrite Ht in Hf. discriminate.
+Qed.
+
 (** ** non-vacuity *)
 Example dedup_example_groups :
   build_groups dedup_example_reg =
